@@ -156,8 +156,8 @@ pub fn run(rep: &mut Report) {
 
 /// A persistent session with one stored PUBLISH (built on the object itself, or restored into a fresh one), the
 /// connection closed. The first bytes the peer sends on the next transport are not under the application's
-/// control: every sequence of <= 2 frames over {DISCONNECT with Session Expiry Interval 0, CONNACK with Session
-/// Present 1 (although no CONNECT was sent), PINGRESP}, then the close. None of them is an acknowledgement, an
+/// control: every sequence of <= 3 frames over {CONNACK with Session Present 1 (although no CONNECT was sent),
+/// PINGRESP, PUBLISH QoS 0, v5.0: DISCONNECT with Session Expiry Interval 0, plain DISCONNECT}, then the close. None of them is an acknowledgement, an
 /// erase or an oversize drop: the PUBLISH stays stored with its identifier held, and the next regular resume
 /// retransmits it.
 fn first_bytes(rep: &mut Report) {
@@ -171,8 +171,10 @@ fn first_bytes(rep: &mut Report) {
             for restored in [false, true] {
                 let frames: Vec<(&str, AP)> = {
                     let mut f = vec![("CONNACK(session present 1) without a CONNECT", AckProf::basic(true).ap(ver)), ("PINGRESP", AP::Pingresp { ver })];
+                    f.push(("PUBLISH QoS 0", AP::Publish { ver, dup: false, qos: 0, retain: false, topic: b"a".to_vec(), pid: None, props: vec![], payload: b"p".to_vec() }));
                     if ver == Ver::V5 {
                         f.push(("DISCONNECT(Session Expiry Interval 0)", AP::Disconnect { ver, code: Some(0), props: Some(vec![Prop { id: 0x11, val: PVal::U32(0) }]) }));
+                        f.push(("DISCONNECT", AP::Disconnect { ver, code: None, props: None }));
                     }
                     f
                 };
@@ -181,6 +183,9 @@ fn first_bytes(rep: &mut Report) {
                     seqs.push(vec![a]);
                     for b in 0..frames.len() {
                         seqs.push(vec![a, b]);
+                        for c in 0..frames.len() {
+                            seqs.push(vec![a, b, c]);
+                        }
                     }
                 }
                 for sq in seqs {
